@@ -37,6 +37,11 @@ def cut(src, kind, name, within=None, nth=0):
     For kind == 'impl', name is a regex matched against the header text
     between `impl` and `{`.
     """
+    if kind == "filehead":
+        # the whole file up to its test module (`#[cfg(test)]` / `#[cfg(all(test, ...))]`), or all of it
+        m = re.search(r"^#\[cfg\((?:all\()?test\b", src, flags=re.M)
+        text = src[:m.start()] if m else src
+        return text, 1, text.count("\n") + 1
     toks, _ = lex(src)
     lo, hi = 0, len(toks)
     if within:
